@@ -10,6 +10,7 @@ import (
 	"os"
 	"os/exec"
 	"path/filepath"
+	"runtime/debug"
 	"sort"
 	"strings"
 	"sync"
@@ -32,6 +33,8 @@ type Enum struct {
 	Doc   string
 	Count func(tier string) int
 	Eval  func(tier string, i int) CaseResult
+	// Describe (optional) writes case i out without evaluating it (used when evaluating it kills the process).
+	Describe func(tier string, i int) string
 }
 
 // CaseResult of one enumerated case.
@@ -100,6 +103,7 @@ type Part struct {
 	Samples     []string `json:"samples,omitempty"`
 	WallS       float64  `json:"wall_s"`
 	Pruned      int      `json:"sleep_set_pruned,omitempty"`
+	Broken      string   `json:"harness_broken,omitempty"`
 }
 
 // Known finding entry (known_findings.json).
@@ -249,6 +253,12 @@ func (c *Ctx) finishPart(p *Part, st *explore.Stats, name string, t0 time.Time) 
 		c.broken = name + ": " + st.Broken
 	}
 	c.mu.Unlock()
+	if st.Broken != "" {
+		// the exploration of this part lost its footing (an execution did not replay): nothing it
+		// observed is believed, neither silence nor alarms
+		p.Broken = st.Broken
+		return
+	}
 	c.classify(p, st.Violations, name)
 	if st.ViolCount > len(st.Violations) {
 		// more violations than were kept: count the surplus as new unless every kept one is known
@@ -378,6 +388,8 @@ func (c *Ctx) farmReqs(roots []workReq, b explore.Bounds, st *explore.Stats) {
 
 // WorkerLoop serves DFS and enumeration requests on stdin (one JSON per line).
 func WorkerLoop() {
+	// unbounded recursion should kill a worker quickly and cheaply (the default limit is 1 GB)
+	debug.SetMaxStack(256 << 20)
 	rd := bufio.NewReaderSize(os.Stdin, 1<<20)
 	wr := bufio.NewWriter(os.Stdout)
 	for {
@@ -427,6 +439,10 @@ type enumReq struct {
 	Shard        int    `json:"shard"`
 	Of           int    `json:"of"`
 	DeadlineUnix int64  `json:"deadline"`
+	From         int    `json:"from,omitempty"`  // first case index of the shard to evaluate (resume after a case that killed the worker)
+	Only         bool   `json:"only,omitempty"`  // evaluate case From alone
+	Trace        bool   `json:"trace,omitempty"` // announce every case index on stderr before evaluating it
+	Until        int    `json:"until,omitempty"` // stop before this case index (0: no limit)
 }
 
 type enumRes struct {
@@ -453,6 +469,18 @@ func runEnumShard(rq enumReq) *enumRes {
 	dl := time.Unix(rq.DeadlineUnix, 0)
 	perKey := map[string]int{}
 	for i := rq.Shard; i < n; i += rq.Of {
+		if i < rq.From {
+			continue
+		}
+		if rq.Only && i != rq.From {
+			break
+		}
+		if rq.Until > 0 && i >= rq.Until {
+			break
+		}
+		if rq.Trace {
+			fmt.Fprintf(os.Stderr, "ENUM-AT %d\n", i)
+		}
 		if time.Now().After(dl) {
 			res.Capped = true
 			break
@@ -488,6 +516,204 @@ func runEnumShard(rq enumReq) *enumRes {
 	return res
 }
 
+// spawnEnum runs one enumeration request in a fresh worker process; stderr is kept (tail) for the
+// post-mortem of a worker that dies.
+func (c *Ctx) spawnEnum(rq enumReq) (*enumRes, string, error) {
+	cmd := exec.Command(c.self, "-worker")
+	cmd.Env = append(os.Environ(), "GOMAXPROCS=2")
+	var errBuf tailBuf
+	cmd.Stderr = &errBuf
+	in, _ := cmd.StdinPipe()
+	out, _ := cmd.StdoutPipe()
+	if err := cmd.Start(); err != nil {
+		return nil, "", err
+	}
+	json.NewEncoder(in).Encode(rq)
+	in.Close()
+	var r enumRes
+	dec := json.NewDecoder(bufio.NewReaderSize(out, 1<<20))
+	err := dec.Decode(&r)
+	cmd.Wait()
+	if err != nil {
+		return nil, errBuf.String(), err
+	}
+	if !rq.Trace {
+		os.Stderr.WriteString(errBuf.String())
+	}
+	return &r, errBuf.String(), nil
+}
+
+// tailBuf keeps the first 64 KiB and the last 64 KiB written to it.
+type tailBuf struct {
+	mu   sync.Mutex
+	head []byte
+	tail []byte
+}
+
+func (t *tailBuf) Write(p []byte) (int, error) {
+	t.mu.Lock()
+	defer t.mu.Unlock()
+	n := len(p)
+	if len(t.head) < 1<<16 {
+		k := 1<<16 - len(t.head)
+		if k > len(p) {
+			k = len(p)
+		}
+		t.head = append(t.head, p[:k]...)
+		p = p[k:]
+	}
+	t.tail = append(t.tail, p...)
+	if len(t.tail) > 1<<16 {
+		t.tail = t.tail[len(t.tail)-1<<16:]
+	}
+	return n, nil
+}
+
+func (t *tailBuf) String() string {
+	t.mu.Lock()
+	defer t.mu.Unlock()
+	return string(t.head) + string(t.tail)
+}
+
+// runShardIsolated evaluates one shard in worker processes. A case that kills its worker with a
+// Go runtime fatal error raised inside the library (stack exhaustion from unbounded recursion,
+// concurrent map access) is isolated: the shard is run again announcing every case, the dying case
+// is evaluated alone twice more, and when it dies the same way both times it is reported as a
+// violation of that case; the rest of the shard is then resumed behind it. Any other death of a
+// worker leaves the part broken.
+func (c *Ctx) runShardIsolated(rq enumReq) *enumRes {
+	total := &enumRes{Outcomes: map[string]int{}}
+	merge := func(r *enumRes) {
+		total.Cases += r.Cases
+		total.Nontrivial += r.Nontrivial
+		total.States += r.States
+		total.Trans += r.Trans
+		total.ViolCount += r.ViolCount
+		total.Capped = total.Capped || r.Capped
+		for k, v := range r.Outcomes {
+			total.Outcomes[k] += v
+		}
+		total.Violations = append(total.Violations, r.Violations...)
+		if len(total.Samples) < 2 {
+			total.Samples = append(total.Samples, r.Samples...)
+		}
+		if r.Broken != "" && total.Broken == "" {
+			total.Broken = r.Broken
+		}
+	}
+	for deaths := 0; ; deaths++ {
+		r, _, err := c.spawnEnum(rq)
+		if err == nil {
+			merge(r)
+			return total
+		}
+		if deaths >= 8 {
+			total.Broken = fmt.Sprintf("enum worker %d died %d times", rq.Shard, deaths+1)
+			return total
+		}
+		// which case kills it?
+		tr := rq
+		tr.Trace = true
+		_, log, err2 := c.spawnEnum(tr)
+		if err2 == nil {
+			total.Broken = fmt.Sprintf("enum worker %d died (%v) but not when run again", rq.Shard, err)
+			return total
+		}
+		at := -1
+		for _, l := range strings.Split(log, "\n") {
+			var i int
+			if n, _ := fmt.Sscanf(l, "ENUM-AT %d", &i); n == 1 {
+				at = i
+			}
+		}
+		if at < 0 {
+			total.Broken = fmt.Sprintf("enum worker %d died before its first case: %v", rq.Shard, err)
+			return total
+		}
+		one := rq
+		one.From, one.Only = at, true
+		_, log1, e1 := c.spawnEnum(one)
+		_, log2, e2 := c.spawnEnum(one)
+		f1, fn1 := libraryFatal(log1)
+		f2, fn2 := libraryFatal(log2)
+		if e1 == nil || e2 == nil || f1 == "" || f1 != f2 || fn1 != fn2 {
+			total.Broken = fmt.Sprintf("enum worker %d died at case %d (%v); alone the case gives %q/%q", rq.Shard, at, err, f1, f2)
+			return total
+		}
+		// results of the cases before the dying one
+		if at > rq.From {
+			pre := rq
+			pre.Trace = false
+			// cases rq.From .. at-1 of this shard: evaluated again in a worker that stops before 'at'
+			pre.DeadlineUnix = rq.DeadlineUnix
+			r0 := c.spawnEnumUntil(pre, at)
+			if r0 != nil {
+				merge(r0)
+			}
+		}
+		total.Cases++
+		total.ViolCount++
+		total.Outcomes["fatal:"+f1]++
+		total.Violations = append(total.Violations, explore.Violation{
+			Key: fmt.Sprintf("process-killed:%s:%s", f1, fn1),
+			Msg: fmt.Sprintf("evaluating case %d of %s kills the process with a Go runtime fatal error (%s) raised in %s; reproduced twice in a fresh process", at, rq.Enum, f1, fn1),
+			Detail: map[string]interface{}{"case_index": at, "case": describeCase(rq.Enum, rq.Tier, at)},
+		})
+		rq.From = at + 1
+	}
+}
+
+func describeCase(enum, tier string, i int) string {
+	if e := enums[enum]; e != nil && e.Describe != nil {
+		return e.Describe(tier, i)
+	}
+	return fmt.Sprintf("case %d of %s", i, enum)
+}
+
+// spawnEnumUntil evaluates the cases of the shard in [rq.From, until).
+func (c *Ctx) spawnEnumUntil(rq enumReq, until int) *enumRes {
+	rq.Until = until
+	r, _, err := c.spawnEnum(rq)
+	if err != nil {
+		return nil
+	}
+	return r
+}
+
+// libraryFatal recognises, in the stderr of a dead worker, a Go runtime fatal error whose crashing
+// goroutine was executing library code; it returns the class of the error and the innermost
+// library function.
+func libraryFatal(log string) (string, string) {
+	class := ""
+	switch {
+	case strings.Contains(log, "goroutine stack exceeds"):
+		class = "stack-overflow"
+	case strings.Contains(log, "fatal error: concurrent map"):
+		class = "concurrent-map-access"
+	default:
+		return "", ""
+	}
+	const mod = "trpc.group/trpc-go/trpc-mcp-go"
+	i := strings.Index(log, "\ngoroutine ")
+	if i < 0 {
+		return "", ""
+	}
+	// the first goroutine printed is the one that crashed; its first library frame names the culprit
+	for n, l := range strings.Split(log[i+1:], "\n") {
+		if n > 0 && l == "" {
+			break
+		}
+		if strings.HasPrefix(l, mod) {
+			fn := l
+			if k := strings.LastIndex(fn, "("); k > 0 {
+				fn = fn[:k]
+			}
+			return class, strings.TrimPrefix(fn, mod)
+		}
+	}
+	return "", ""
+}
+
 // Enumerate runs a registered enumeration, sharded over worker processes.
 func (c *Ctx) Enumerate(name string) *Part {
 	e := enums[name]
@@ -509,28 +735,11 @@ func (c *Ctx) Enumerate(name string) *Part {
 		go func(s int) {
 			defer wg.Done()
 			rq := enumReq{Enum: name, Tier: c.Tier, Shard: s, Of: shards, DeadlineUnix: c.Deadline.Unix()}
-			if shards == 1 {
+			if os.Getenv("VERIF_INPROC") != "" {
 				results[s] = runEnumShard(rq)
 				return
 			}
-			cmd := exec.Command(c.self, "-worker")
-			cmd.Env = append(os.Environ(), "GOMAXPROCS=2")
-			cmd.Stderr = os.Stderr
-			in, _ := cmd.StdinPipe()
-			out, _ := cmd.StdoutPipe()
-			if err := cmd.Start(); err != nil {
-				results[s] = &enumRes{Broken: err.Error()}
-				return
-			}
-			json.NewEncoder(in).Encode(rq)
-			in.Close()
-			var r enumRes
-			dec := json.NewDecoder(bufio.NewReaderSize(out, 1<<20))
-			if err := dec.Decode(&r); err != nil {
-				r.Broken = fmt.Sprintf("enum worker %d died: %v", s, err)
-			}
-			cmd.Wait()
-			results[s] = &r
+			results[s] = c.runShardIsolated(rq)
 		}(s)
 	}
 	wg.Wait()
@@ -677,11 +886,15 @@ func Main(id, tier string, seed int, verifDir, self string, budget time.Duration
 	for _, l := range knownLines {
 		fmt.Println(l)
 	}
-	if c.broken != "" {
+	if c.broken != "" && len(c.newViol) == 0 {
 		fmt.Printf("HARNESS-BROKEN %s\n", c.broken)
 		return 2
 	}
 	if len(c.newViol) > 0 {
+		if c.broken != "" {
+			// violations come only from parts that were explored soundly; the part named here was discarded
+			fmt.Printf("NOTE part discarded (could not be explored deterministically): %s\n", c.broken)
+		}
 		os.MkdirAll(c.replayDir, 0o755)
 		seen := map[string]bool{}
 		n := 0
@@ -759,6 +972,9 @@ func Replay(path string) int {
 	}
 	if e := enums[name]; e != nil {
 		idx := int(r.Violation.Detail["case_index"].(float64))
+		if strings.HasPrefix(r.Violation.Key, "process-killed:") {
+			fmt.Printf("case %d: %s\nthe violation is that evaluating this case kills the process; a reproduction ends this replay with the Go runtime's fatal error\n", idx, describeCase(name, r.Tier, idx))
+		}
 		r1 := e.Eval(r.Tier, idx)
 		r2 := e.Eval(r.Tier, idx)
 		k1, k2 := violKeys(r1.Violations), violKeys(r2.Violations)
